@@ -8,16 +8,16 @@ package main
 //      (route table = Generated/Routes.lean), with direct oracles: canaries never disclosed, nothing changes.
 
 import (
-	"net"
-	"time"
 	"bytes"
 	"crypto/ed25519"
 	"encoding/json"
 	"fmt"
 	"github.com/brutella/hc/hap"
 	"math/rand"
+	"net"
 	"strings"
 	"sync"
+	"time"
 
 	"github.com/brutella/hc/accessory"
 	"github.com/brutella/hc/crypto"
